@@ -444,16 +444,18 @@ def _bind_args(callee: ast.FunctionDef, call: ast.Call, ren: T.Dict[str, str]) -
     if a.vararg or a.kwarg or a.posonlyargs or any(isinstance(x, ast.Starred) for x in call.args) or any(k.arg is None for k in call.keywords):
         return None
     params = [p.arg for p in a.args]
-    if not params or params[0] != 'self':
-        return None
-    params = params[1:]
+    is_method = isinstance(call.func, ast.Attribute)
+    if is_method:
+        if not params or params[0] != 'self':
+            return None
+        params = params[1:]
     defaults: T.Dict[str, ast.AST] = dict(zip(reversed(params), reversed(a.defaults))) if a.defaults else {}
     for p, d in zip(a.kwonlyargs, a.kw_defaults):
         params.append(p.arg)
         if d is not None:
             defaults[p.arg] = d
     given: T.Dict[str, ast.AST] = {}
-    if len(call.args) > len(a.args) - 1:
+    if len(call.args) > len(a.args) - (1 if is_method else 0):
         return None
     for p, v in zip(params, call.args):
         given[p] = v
@@ -470,7 +472,21 @@ def _bind_args(callee: ast.FunctionDef, call: ast.Call, ren: T.Dict[str, str]) -
     return out
 
 
-def inline_helpers(fn: ast.FunctionDef, methods: T.Dict[str, T.Any], vocab: T.Iterable[str], depth: int = 2) -> ast.FunctionDef:
+def _falls_off(body: T.List[ast.stmt]) -> bool:
+    """can execution run off the end of this statement list (instead of leaving by return/raise)?"""
+    probe = ast.fix_missing_locations(ast.FunctionDef(name='_probe', args=ast.arguments(posonlyargs=[], args=[], kwonlyargs=[], kw_defaults=[], defaults=[]),
+                                                      body=copy.deepcopy(body), decorator_list=[], lineno=1, col_offset=0))
+    try:
+        cfg = CFG(probe)
+    except Undecided:
+        return True
+    return any(not (cfg.nodes[a].kind == 'stmt' and isinstance(cfg.nodes[a].ast, ast.Return)) and lab != 'exc'
+               and not (cfg.nodes[a].kind == 'with_exit' and all(isinstance(cfg.nodes[b].ast, ast.Return) for b, _ in cfg.pred[a]))
+               for a, lab in cfg.pred[cfg.exit_return.id])
+
+
+def inline_helpers(fn: ast.FunctionDef, methods: T.Dict[str, T.Any], vocab: T.Iterable[str], depth: int = 2,
+                   modfuncs: T.Optional[T.Dict[str, T.Any]] = None) -> ast.FunctionDef:
     """Copy of `fn` in which calls of *new* private helpers of the same class (`self.h(...)`, h not in the vocabulary the
     reference is written in) are expanded in place when that is meaning-preserving by construction:
     `self.h(..)` as a statement (h has no valued return), `return self.h(..)` (tail call), `x = self.h(..)` (h has one,
@@ -483,9 +499,12 @@ def inline_helpers(fn: ast.FunctionDef, methods: T.Dict[str, T.Any], vocab: T.It
         if not isinstance(c, ast.Call):
             return None
         m = self_method_called(c)
-        if not m or m in vocab or m == fn.name or m not in methods:
+        if m and m not in vocab and m != fn.name and m in methods:
+            callee = methods[m]
+        elif isinstance(c.func, ast.Name) and modfuncs and c.func.id in modfuncs and c.func.id != fn.name:
+            callee = modfuncs[c.func.id]        # a helper that lives at module level (moved out of the class, or never was in it)
+        else:
             return None
-        callee = methods[m]
         if any(isinstance(n, (ast.Await, ast.Global, ast.Nonlocal)) for n in ast.walk(callee)):
             return None
         is_gen = any(isinstance(n, (ast.Yield, ast.YieldFrom)) for n in walk_no_nested(callee))
@@ -559,7 +578,7 @@ def inline_helpers(fn: ast.FunctionDef, methods: T.Dict[str, T.Any], vocab: T.It
         if mode == 'assign':
             result = new[-1].value
             new = new[:-1]
-        elif mode == 'return' and not isinstance(new[-1], (ast.Return, ast.Raise)):
+        elif mode == 'return' and _falls_off(new):
             new.append(ast.copy_location(ast.Return(value=None), call))
         return binds + block(new, d - 1), result
 
@@ -878,8 +897,8 @@ def _bool_returns(fn: ast.FunctionDef) -> None:
                     setattr(st, field, block(sub))
             for h in getattr(st, 'handlers', []):
                 h.body = block(h.body)
-            if isinstance(st, ast.Return) and isinstance(st.value, (ast.BoolOp, ast.Compare)) or \
-                    (isinstance(st, ast.Return) and isinstance(st.value, ast.UnaryOp) and isinstance(st.value.op, ast.Not)):
+            if isinstance(st, ast.Return) and st.value is not None and not isinstance(st.value, ast.Constant):
+                # (declared bool: any other value stands for its truth)
                 out.append(ast.copy_location(ast.If(test=st.value, body=[ast.copy_location(ast.Return(value=ast.Constant(value=True)), st)],
                                                     orelse=[ast.copy_location(ast.Return(value=ast.Constant(value=False)), st)]), st))
             else:
@@ -1096,9 +1115,66 @@ def _index_loops(fn: ast.FunctionDef) -> None:
     _map_blocks(fn, f)
 
 
-def canonicalise(fn: ast.FunctionDef, methods: T.Dict[str, T.Any], cls: str, consts: T.Optional[T.Dict[str, ast.AST]] = None) -> ast.FunctionDef:
+def _records_as_tuples(fn: ast.FunctionDef, methods: T.Dict[str, T.Any], records: T.Dict[str, T.List[str]]) -> None:
+    """a small record class (NamedTuple / dataclass of the module) used instead of a tuple: `Rec(a, b)` -> `(a, b)`, and `v.field` -> `v[i]`
+    for a loop variable v over the result of a method of the class whose return annotation names Rec"""
+    if not records:
+        return
+
+    class Build(ast.NodeTransformer):
+        def visit_Call(self, c: ast.Call) -> ast.AST:
+            self.generic_visit(c)
+            name = attr_chain(c.func)
+            if name in records and not any(isinstance(a, ast.Starred) for a in c.args) and not any(k.arg is None for k in c.keywords):
+                fields = records[name]
+                vals: T.Dict[str, ast.AST] = dict(zip(fields, c.args))
+                for k in c.keywords:
+                    vals[T.cast(str, k.arg)] = k.value
+                if len(c.args) <= len(fields) and set(vals) == set(fields):
+                    return ast.copy_location(ast.Tuple(elts=[vals[f] for f in fields], ctx=ast.Load()), c)
+            return c
+    for i, st in enumerate(fn.body):
+        fn.body[i] = Build().visit(st)
+
+    def rec_of(e: ast.AST) -> T.Optional[str]:
+        """record class of the elements of `e` (a call of a method of the class, or a local bound once to one)"""
+        if isinstance(e, ast.Call) and attr_chain(e.func) in ('enumerate', 'list', 'tuple', 'reversed', 'iter') and e.args:
+            return rec_of(e.args[0])
+        if isinstance(e, ast.Name):
+            defs = [n.value for n in ast.walk(fn) if isinstance(n, (ast.Assign, ast.AnnAssign)) and n.value is not None and
+                    any(isinstance(t, ast.Name) and t.id == e.id for t in (n.targets if isinstance(n, ast.Assign) else [n.target]))]
+            return rec_of(defs[0]) if len(defs) == 1 else None
+        m = self_method_called(e) if isinstance(e, ast.Call) else None
+        if m and m in methods and methods[m].returns is not None:
+            ann = ast.unparse(methods[m].returns)
+            hits = [r for r in records if r in {n.id for n in ast.walk(methods[m].returns) if isinstance(n, ast.Name)} or f"'{r}'" in ann or f'[{r}]' in ann]
+            return hits[0] if len(hits) == 1 else None
+        return None
+    for loop in [n for n in ast.walk(fn) if isinstance(n, ast.For)]:
+        rec = rec_of(loop.iter)
+        if rec is None:
+            continue
+        tgt = loop.target
+        if isinstance(loop.iter, ast.Call) and attr_chain(loop.iter.func) == 'enumerate' and isinstance(tgt, ast.Tuple) and len(tgt.elts) == 2:
+            tgt = tgt.elts[1]
+        if not isinstance(tgt, ast.Name):
+            continue
+        var, fields = tgt.id, records[rec]
+
+        class Field(ast.NodeTransformer):
+            def visit_Attribute(self, a: ast.Attribute) -> ast.AST:
+                self.generic_visit(a)
+                if isinstance(a.value, ast.Name) and a.value.id == var and a.attr in fields and isinstance(a.ctx, ast.Load):
+                    return ast.copy_location(ast.Subscript(value=a.value, slice=ast.Constant(value=fields.index(a.attr)), ctx=ast.Load()), a)
+                return a
+        loop.body = [Field().visit(b) for b in loop.body]
+
+
+def canonicalise(fn: ast.FunctionDef, methods: T.Dict[str, T.Any], cls: str, consts: T.Optional[T.Dict[str, ast.AST]] = None,
+                 records: T.Optional[T.Dict[str, T.List[str]]] = None) -> ast.FunctionDef:
     """in place on a private copy of a function: the spelling normalisations above"""
     _fold_constants(fn, consts or {})
+    _records_as_tuples(fn, methods, records or {})
     _index_loops(fn)
     _desugar_next(fn)
     _unroll_constant_loops(fn)
